@@ -33,6 +33,7 @@ type conn struct {
 	counter  int32
 	onClose  func(*websocket.Conn)
 	once     sync.Once
+	closed   bool
 }
 
 func dial(ctx context.Context) (*websocket.Conn, error) {
@@ -63,10 +64,13 @@ func newConn(ctx context.Context, onConnect func(*websocket.Conn) *websocket.Con
 	}, nil
 }
 
-func (c *conn) store(index int, resultChan chan data) {
+func (c *conn) store(index int, resultChan chan data) (ok bool) {
 	c.lock.Lock()
-	c.results[index] = resultChan
+	if ok = !c.closed; ok {
+		c.results[index] = resultChan
+	}
 	c.lock.Unlock()
+	return
 }
 
 func (c *conn) delete(index int) {
@@ -86,6 +90,7 @@ func (c *conn) loadAndDelete(index int) (resultChan chan data, loaded bool) {
 
 func (c *conn) rangeAndClean(f func(index int, resultChan chan data)) {
 	c.lock.Lock()
+	c.closed = true
 	for len(c.results) > 0 {
 		results := c.results
 		c.results = make(map[int]chan data)
@@ -102,7 +107,9 @@ func (c *conn) rangeAndClean(f func(index int, resultChan chan data)) {
 func (c *conn) Transport(ctx context.Context, request []byte) (response []byte, err error) {
 	index := int(atomic.AddInt32(&c.counter, 1) & 0x7fffffff)
 	resultChan := make(chan data, 1)
-	c.store(index, resultChan)
+	if !c.store(index, resultChan) {
+		return nil, core.ErrClosed
+	}
 	if verifhook.On {
 		verifhook.Gate("mux.afterStore", c, index, request)
 	}
